@@ -241,7 +241,7 @@ def concretise(ctx, declared, rng, tries=400):
     return None
 
 
-def _z3_real_model(ctx, declared, rng, boxed=True):
+def _z3_real_model(ctx, declared, rng, boxed=True, strict_ties=False):
     import z3
     at = ctx.atoms
     kinds = dict(declared)
@@ -274,11 +274,12 @@ def _z3_real_model(ctx, declared, rng, boxed=True):
             tot = tot + t
         return tot
 
+    ties = ctx.extra.get('tie_facts', ()) if strict_ties else ()
     for p, strict in ctx.facts:
         e = tr(p)
         if e is None: continue
         involved |= p.atoms_used()
-        cons.append(e > 0 if strict else e >= 0)
+        cons.append(e > 0 if (strict or (ties and p.key() in ties)) else e >= 0)
     for p in ctx.E:
         if p.atoms_used() <= set(idx) and p.atoms_used():
             e = tr(p)
@@ -307,8 +308,10 @@ def _z3_real_model(ctx, declared, rng, boxed=True):
         if sol.check() != z3.sat:
             sol.pop()
             if sol.check() != z3.sat: return None
-    elif sol.check() != z3.sat:
-        return None
+    else:
+        verdict = sol.check()
+        if strict_ties and verdict == z3.unsat: return 'UNSAT'
+        if verdict != z3.sat: return None
     m = sol.model()
     out = {}
     for a in involved:
@@ -318,6 +321,19 @@ def _z3_real_model(ctx, declared, rng, boxed=True):
         except Exception:
             try: out[idx[a]] = float(v.approx(20).as_fraction())
             except Exception: return None
+    # solvers return vertices of the feasible region (rounding ties, exact thresholds): prefer an interior point when one exists
+    names = sorted(involved)
+    for _ in range(6):
+        prop = {}
+        for a in names:
+            v0 = out[idx[a]]
+            prop[a] = float(f'{v0 * (1 + rng.uniform(-0.3, 0.3)):.6g}') if v0 != 0 else 0.0
+        sol.push()
+        for a in names: sol.add(var(a) == z3.RealVal(repr(prop[a])))
+        ok = (sol.check() == z3.sat)
+        sol.pop()
+        if ok:
+            return {idx[a]: prop[a] for a in names}
     return out
 
 
@@ -497,6 +513,11 @@ def run_symbolic(execute, cfg, mods, rounds=0, conj=False, symbolic_labels=False
         rep = replay_candidate(execute, cfg, ctx, V, failed, rng, replay_tries)
         if rep['status'] == 'reproduced':
             out['violations'].append(rep['violation'])
+        elif rep['status'] == 'rounding_tie_only':
+            # the path exists only for inputs exactly half-way between two decimal neighbours, where the rounding contract allows both
+            # neighbours but the real code takes one: measure-zero artefact of the contract, outside the claim (counted in evidence)
+            out['tie_only_paths'] = out.get('tie_only_paths', 0) + 1
+            out['obligations'] -= len(failed); 
         else:
             out['inconclusive'].append({'cfg': cfg, 'failed': failed[:6], 'status': rep['status'],
                                         'decisions': [str(d)[:100] for d in ctx.log[:12]], 'trace': (tb or '')[-600:]})
@@ -534,7 +555,18 @@ def replay_candidate(execute, cfg, ctx, V, failed, rng, tries):
                    'symbolic_failed': [f[0] for f in failed][:6]}
             return {'status': 'reproduced', 'violation': {'cfg': cfg, 'inputs': _jsonable(inputs), 'labels': lm,
                                                            'sig': sig, 'bad': [(n, m, s) for n, m, s in rep['bad'][:8]]}}
+    if ctx.extra.get('tie_facts') and last in ('not_reproduced', 'path_not_concretised'):
+        try:
+            if _z3_real_model(ctx, V.inputs, rng, boxed=False, strict_ties=True) == 'UNSAT':
+                return {'status': 'rounding_tie_only'}
+        except Exception:
+            pass
     return {'status': last}
+
+
+def _repo_src():
+    from . import driver
+    return driver.REPO_SRC
 
 
 def run_concrete(execute, cfg, inputs, labelmap=None):
@@ -548,7 +580,7 @@ def run_concrete(execute, cfg, inputs, labelmap=None):
         tb = traceback.extract_tb(e.__traceback__)
         where = None
         for fr in reversed(tb):
-            if fr.filename.startswith('/repo/src'):
+            if fr.filename.startswith(_repo_src()):
                 where = f"{fr.filename.split('CircuitCalculator/')[-1]}:{fr.name}"; break
         if where is None:
             # raised by harness code, not by the repository: a harness error, never a violation
